@@ -66,6 +66,7 @@ def run (mode : String) (nacc n : Nat) (rest : List String) : String :=
         let lks := build txs
         if !((txs.zip lks).all (fun p => validTx p.2 p.1)) then "bad-op"
         else if (txs.zip lks).any (fun p => p.2.world = 2 && p.1.prog.isEmpty) then "unsupported"
+        else if txs.any (fun t => t.reqs.any (fun r => r.acct.isNone && r.lock = .read)) then "unsupported"
         else
           let sc := if mode = "f" then Sched.toks [] else if kind = "p" then Sched.prio sched else Sched.toks sched
           match simulate txs lks (fuelFor txs) (simInit nacc txs) sc with
